@@ -128,6 +128,15 @@ def cores(repo):
                 "`Skip._decide_match`, `Fail._decide_match`, with `CsvPath.stop`): heap mode; the condition, if any, is the opaque call "
                 "`self.children[0].matches(skip=skip)`."),
          [("Stop", "_decide_match"), ("Skip", "_decide_match"), ("Fail", "_decide_match")]),
+        (py2lean.Core(
+            repo, "Select",
+            [("csvpath/managers/paths/paths_manager.py", "PathsManager", ["_get_to", "_get_from", "_find_one"])],
+            heap=True,
+            ignore=LOGGING,
+            list_calls={"self.get_identified_paths_in": "idpaths"},
+            doc="C12: selecting members of a named-paths group by identity (`PathsManager._get_to`, `_get_from`, `_find_one`): loops over the "
+                "(identity, csvpath) pairs `get_identified_paths_in` returns — an object list of the world, `[0]` the identity, `[1]` the csvpath."),
+         [("PathsManager", "_get_to"), ("PathsManager", "_get_from"), ("PathsManager", "_find_one")]),
     ]
 
 
